@@ -32,4 +32,5 @@ def with_state_lint(prop, run):
             shared.edge_orientation(check, rels)
             shared.handlers_unchanged(check, rels)
             shared.copy_source_untouched(check, rels)
+            shared.no_identity_on_values(check, rels)
     return wrapped
